@@ -6,6 +6,7 @@ from wsx.core import E, PathAbort
 PROPERTY = "C04"
 BUDGET = {"quick": 900, "thorough": 3000}
 namespaces = hsys.namespaces
+HEAVY_FIRST = ("PEG:la1", "GPG:la1", "GGC:la1", "PEG", "GPG", "GGC", ":la1:w1", ":la2:w2", "P2sync")
 real_namespace = common.real_namespace
 GOALS = ["two requests answered in order", "worker chained the next request", "partial send resumed by the I/O thread", "pre-empted schedule explored",
          "connection closed after Connection: close", "interim response in the stream"]
@@ -28,7 +29,8 @@ INTERIM = b"HTTP/1.1 100 Continue\r\n\r\n"
 
 def BOUNDS(tier):
     if tier == "quick":
-        return ("8 pipelines of 1..2 requests over the kinds %r x (lookahead, workers) in {(0,1),(1,1),(2,2)}; one read or two reads cut at the "
+        return ("8 pipelines of 1..2 requests over the kinds %r x (lookahead, workers) in {(0,1),(1,1),(2,2)} (lookahead 1: the pipelines EG, GE; "
+                "two workers: EG, and the timed arrival of a second read for GP, GG); one read or two reads cut at the "
                 "message boundary / inside the last message; first send() accepts all / len-1 bytes or would block, second all or would block; every "
                 "interleaving of I/O thread and workers with at most 1 pre-emption, at source-line granularity with one worker and at the granularity "
                 "of lock / condition / socket / pipe / select operations with two workers." % (sorted(KINDS),))
@@ -48,25 +50,33 @@ def jobs(tier):
             js.append(dict(name="%s:la1:w2:timed" % "".join(p), pipe=p, lookahead=1, workers=2, P=1, gran="sync", rich=False, timed2=True))
         for p in pipes:
             for la, w in ((0, 1), (1, 1), (2, 2)):
-                if w == 2 and p not in (["G", "P"], ["E", "G"], ["G", "C"]):
-                    continue
+                if w == 2 and p != ["E", "G"]:
+                    continue  # (GP and GC with two workers: thorough tier; GP / GG with two workers also run as timed jobs above)
+                if la == 1 and p not in (["E", "G"], ["G", "E"]):
+                    continue  # lookahead 1 at source-line granularity costs ~15 CPU-minutes per pipeline: the other three are in the thorough tier
                 js.append(dict(name="%s:la%d:w%d" % ("".join(p), la, w), pipe=p, lookahead=la, workers=w, P=1,
                                gran="line" if w == 1 else "sync", rich=False))
         js = common.shard(js, "acc0", 4, lambda j: not j.get("timed2") and len(j["pipe"]) > 1)
         js = common.shard(js, "acc1", 2, lambda j: not j.get("timed2") and len(j["pipe"]) > 1)
         return js
     js = jobs("quick")
-    have = set(j["name"] for j in js)
+    have = set(":".join(j["name"].split(":")[:3]) for j in js)
+    more = []
     pipes = [[a] for a in kinds] + [[a, b] for a in kinds for b in kinds] + [["G", "P", "G"], ["P", "E", "G"], ["G", "G", "C"]]
     for p in pipes:
         for la in (0, 1):
             nm = "%s:la%d:w1" % ("".join(p), la)
             if nm not in have:
-                js.append(dict(name=nm, pipe=p, lookahead=la, workers=1, P=1, gran="line", rich=False))
+                more.append(dict(name=nm, pipe=p, lookahead=la, workers=1, P=1, gran="line", rich=False))
+    for p in (["G", "P"], ["G", "C"]):
+        more.append(dict(name="%s:la2:w2" % "".join(p), pipe=p, lookahead=2, workers=2, P=1, gran="sync", rich=False))
     # two pre-emptions at the granularity of lock / condition / socket / pipe / select operations only
     for p in (["G", "P"], ["E", "G"], ["G", "C"]):
-        js.append(dict(name="%s:la0:w1:P2sync" % "".join(p), pipe=p, lookahead=0, workers=1, P=2, gran="sync", rich=False))
-    return js
+        more.append(dict(name="%s:la0:w1:P2sync" % "".join(p), pipe=p, lookahead=0, workers=1, P=2, gran="sync", rich=False))
+    more = common.shard(more, "acc0", 4, lambda j: len(j["pipe"]) > 1)
+    more = common.shard(more, "acc1", 2, lambda j: len(j["pipe"]) > 1)
+    more = common.shard(more, "cut", 3, lambda j: len(j["pipe"]) > 2)
+    return js + more
 
 
 def make_inputs(job):
